@@ -138,6 +138,7 @@ pub fn dispatch(args: &Args) -> i32 {
                 }
                 "misc" => {
                     p_misc::eq_fns(&mut r);
+                    p_misc::eq_fns_aliased(&mut r);
                     p_misc::pair_selection(&mut r);
                     p_misc::panic_exactness(&mut r);
                     p_iter::purity(&mut r);
@@ -208,6 +209,7 @@ pub fn dispatch(args: &Args) -> i32 {
         "C18" => {
             let mut r = mk("C18");
             p_misc::eq_fns(&mut r);
+            p_misc::eq_fns_aliased(&mut r);
             r.rep.finish(bitmap_path.as_deref());
         }
         "C19" => {
